@@ -29,6 +29,11 @@ import (
 type verifDaySpec struct {
 	from, to time.Weekday // inclusive range, wrapping; single day when equal
 	nth      int          // 0: every week; 1-4: nth such weekday of the month; 5: last
+	// span anchored on a numbered week day: 1 = the start is numbered ("mon1-fri": from the
+	// first Monday of the month to the following Friday), 2 = the end is numbered ("mon-fri2":
+	// from the Monday before the second Friday to that Friday); a span between the same week
+	// day ("mon-mon2") is eight days long
+	anchor int
 }
 
 type verifClockSpec struct {
@@ -46,6 +51,12 @@ type verifEventSpec struct {
 var verifDayNames = []string{"sun", "mon", "tue", "wed", "thu", "fri", "sat"}
 
 func (d verifDaySpec) String() string {
+	switch d.anchor {
+	case 1:
+		return verifDayNames[d.from] + strconv.Itoa(d.nth) + "-" + verifDayNames[d.to]
+	case 2:
+		return verifDayNames[d.from] + "-" + verifDayNames[d.to] + strconv.Itoa(d.nth)
+	}
 	s := verifDayNames[d.from]
 	if d.nth > 0 {
 		s += strconv.Itoa(d.nth)
@@ -54,6 +65,13 @@ func (d verifDaySpec) String() string {
 		s += "-" + verifDayNames[d.to]
 	}
 	return s
+}
+
+func verifIsNth(day time.Time, nth int) bool {
+	if nth == 5 {
+		return day.AddDate(0, 0, 7).Month() != day.Month()
+	}
+	return (day.Day()-1)/7+1 == nth
 }
 
 func verifHHMM(m int) string { return fmt.Sprintf("%02d:%02d", (m/60)%24, m%60) }
@@ -85,6 +103,27 @@ func (e verifEventSpec) String() string {
 }
 
 func (d verifDaySpec) matches(day time.Time) bool {
+	if d.anchor != 0 {
+		length := (int(d.to) - int(d.from) + 7) % 7
+		if length == 0 {
+			length = 7
+		}
+		for k := 0; k <= length; k++ {
+			var a time.Time // the numbered end of the span if day is its k-th day
+			if d.anchor == 1 {
+				a = day.AddDate(0, 0, -k)
+				if a.Weekday() == d.from && verifIsNth(a, d.nth) {
+					return true
+				}
+			} else {
+				a = day.AddDate(0, 0, k)
+				if a.Weekday() == d.to && verifIsNth(a, d.nth) {
+					return true
+				}
+			}
+		}
+		return false
+	}
 	wd := day.Weekday()
 	in := false
 	if d.from <= d.to {
@@ -212,11 +251,16 @@ func verifGenTimer(c *verifsim.Ctx) ([]verifEventSpec, string) {
 	genDay := func() verifDaySpec {
 		d := verifDaySpec{from: time.Weekday(c.Draw("day", 7))}
 		d.to = d.from
-		switch c.Draw("day-kind", 3) {
+		switch c.Draw("day-kind", 5) {
 		case 1:
 			d.nth = 1 + c.Draw("nth", 5)
 		case 2:
 			d.to = time.Weekday(c.Draw("day-to", 7))
+		case 3, 4: // a span anchored on a numbered week day
+			d.to = time.Weekday(c.Draw("day-to", 7))
+			d.nth = 1 + c.Draw("nth", 5)
+			d.anchor = 1 + c.Draw("anchor-end", 2)
+			c.Count("probe:week-span-anchored-on-numbered-day")
 		}
 		return d
 	}
